@@ -612,6 +612,9 @@ def canonicalise(tree, rel):
     moved = []
     seen_q = {}
     if refs:
+        import time as _time
+        _DEADLINE[0] = _time.time() + 5.0
+
         def walk_lists(node, prefix):
             for fld in ('body', 'orelse', 'finalbody', 'handlers'):
                 lst = getattr(node, fld, None)
@@ -973,11 +976,36 @@ def _name_uses(f, name):
     return [n for n in ast.walk(f) if isinstance(n, ast.Name) and n.id == name]
 
 
-def _candidates(f, ref_assigns=(), ref_locals=()):
+def _candidates(f, ref_assigns=(), ref_locals=(), changed=None):
+    for c in _candidates_all(f, ref_assigns, ref_locals, changed):
+        yield c
+
+
+def _near(changed, *nodes):
+    if changed is None:
+        return True
+    for n in nodes:
+        if n is None:
+            continue
+        try:
+            t = ast.unparse(n)
+        except Exception:
+            return True
+        if isinstance(n, ast.stmt):
+            if any(l.strip() in changed for l in t.splitlines()):
+                return True
+        elif any(t in l for l in changed):
+            return True
+    return False
+
+
+def _candidates_all(f, ref_assigns=(), ref_locals=(), changed=None):
     """yields (kind, apply) where apply mutates f in place; sites are addressed by position so that they can be replayed on a copy"""
     blocks = _blocks(f)
     for bi, b in enumerate(blocks):
         for i, st in enumerate(b):
+            if not _near(changed, st, b[i + 1] if i + 1 < len(b) else None, b[i - 1] if i > 0 else None):
+                continue
             # R1 nest the rest of a block under the else of a terminating guard
             if isinstance(st, ast.If) and not st.orelse and _terminates(st.body) and i + 1 < len(b):
                 yield ('nest', bi, i)
@@ -1049,24 +1077,28 @@ def _candidates(f, ref_assigns=(), ref_locals=()):
             yield ('extract_ref_temp', ri, 0)
     # a single-assignment local whose value can be re-evaluated: each use may spell the value out
     own_ = own_nodes(f)
+    import re as _re
+    words = set(w for l in (changed or ()) for w in _re.findall(r'[A-Za-z_][A-Za-z_0-9]*', l))
     for name in ordered_locals(f):
+        if changed is not None and name not in words:
+            continue
         nl = len([n for n in own_ if isinstance(n, ast.Name) and n.id == name and isinstance(n.ctx, ast.Load)])
         for k_ in range(min(nl, 8)):
             yield ('fwd_subst', name, k_)
     # a local the reference does not have may be a renamed reference local
     cur_l = ordered_locals(f)
     for c_ in cur_l:
-        if c_ not in ref_locals:
+        if c_ not in ref_locals and (changed is None or c_ in words):
             for r_ in ref_locals:
                 if r_ not in cur_l and not _name_uses(f, r_):
                     yield ('rename', c_, r_)
     k = 0
-    for n in own_nodes(f):
-        if flippable(n):
+    for n in own_:
+        if flippable(n) and _near(changed, n):
             yield ('mirror', k, 0)
-        if isinstance(n, ast.UnaryOp) and isinstance(n.op, ast.Not) and isinstance(n.operand, ast.BoolOp):
+        if isinstance(n, ast.UnaryOp) and isinstance(n.op, ast.Not) and isinstance(n.operand, ast.BoolOp) and _near(changed, n):
             yield ('demorgan', k, 0)
-        if isinstance(n, ast.BoolOp):
+        if isinstance(n, ast.BoolOp) and _near(changed, n):
             yield ('demorgan_rev', k, 0)
         k += 1
 
@@ -1362,8 +1394,23 @@ def _replace_node(f, old, new):
     T().generic_visit(f)
 
 
-def towards(f, ref_text, budget=400):
+def _changed_lines(lines, ref_lines):
+    """lines of the current text that do not line up with the reference, with one line of context on each side"""
+    sm = _difflib.SequenceMatcher(None, lines, ref_lines, autojunk=False)
+    ch = set()
+    for tag, i1, i2, _j1, _j2 in sm.get_opcodes():
+        if tag != 'equal':
+            for k in range(max(0, i1 - 1), min(len(lines), i2 + 1)):
+                ch.add(lines[k])
+    return ch
+
+
+_DEADLINE = [None]
+
+
+def towards(f, ref_text, budget=300, seconds=2.0):
     """best-first search over rewrite sequences; returns the closest function found (possibly f itself)"""
+    import time as _time
     ref_lines = [l.strip() for l in ref_text.splitlines()[1:]]
     ref_assigns = []
     try:
@@ -1378,19 +1425,24 @@ def towards(f, ref_text, budget=400):
     d0 = _dist(start, ref_lines)
     if d0 == 0:
         return f, 0, 0
+    t_end = _time.time() + seconds
+    if _DEADLINE[0] is not None:
+        t_end = min(t_end, _DEADLINE[0])
     best, best_d = f, d0
     seen = set(['\n'.join(start)])
-    frontier = [(d0, 0, f)]
+    frontier = [(d0, 0, f, start)]
     tick = 0
     spent = 0
-    while frontier and spent < budget and best_d > 0:
+    while frontier and spent < budget and best_d > 0 and _time.time() < t_end:
         frontier.sort(key=lambda x: (x[0], x[1]))
-        d, _t, cur = frontier.pop(0)
+        d, _t, cur, cur_lines = frontier.pop(0)
         if d > best_d + 6:
             break
-        for cand in list(_candidates(cur, ref_assigns, ref_locals)):
-            if spent >= budget:
+        changed = _changed_lines(cur_lines, ref_lines)
+        for cand in list(_candidates(cur, ref_assigns, ref_locals, changed)):
+            if spent >= budget or _time.time() >= t_end:
                 break
+            spent += 1
             g = _copy.deepcopy(cur)
             try:
                 if not _apply(g, cand, ref_assigns):
@@ -1399,7 +1451,6 @@ def towards(f, ref_text, budget=400):
                 ls = _lines(g)
             except Exception:
                 continue
-            spent += 1
             key = '\n'.join(ls)
             if key in seen:
                 continue
@@ -1411,5 +1462,5 @@ def towards(f, ref_text, budget=400):
                     break
             if dg <= d + 2:
                 tick += 1
-                frontier.append((dg, tick, g))
+                frontier.append((dg, tick, g, ls))
     return best, d0, best_d
